@@ -8,7 +8,7 @@ import re
 import struct
 from framework import REPO, ROOT
 
-TIE = ["Nsq.Tie.Proto", "Nsq.Tie.ProtoBase10", "Nsq.Tie.ProtoFunc", "Nsq.Tie.ProtoIdentify"]
+TIE = ["Nsq.Tie.Proto", "Nsq.Tie.ProtoBase10", "Nsq.Tie.ProtoFunc", "Nsq.Tie.ProtoIdentify", "Nsq.Tie.NamesFn"]
 PROPS = ["Nsq.Props.C09", "Nsq.Props.C09Identify"]
 HARNESS = ["e3/infra_test.go", "e3/proto_test.go", "e3/http_test.go", "e3/httpfull_test.go", "e3/identify_test.go"]
 NAME_RE = re.compile(rb"^[.a-zA-Z0-9_-]+(#ephemeral)?$")
@@ -537,6 +537,7 @@ def run(ctx):
                 "big-integer check of DPUB/RDY numbers; a concurrent well-behaved producer/consumer pair")
     gen_ok, _ = ctx.gen("e3_proto")
     ctx.gen("e1_codec")   # the translated ByteToBase10 (kind func) for Nsq.Tie.ProtoBase10
+    ctx.gen("e1_names")   # the translated isValidName / IsValidTopicName / IsValidChannelName (kind strfunc) for Nsq.Tie.NamesFn
     ctx.gen("e3_protofunc")   # the four clientV2 setters translated (kind pfunc) for Nsq.Tie.ProtoFunc
     ok, log = ctx.lean_build(TIE + PROPS)
     if not ok:
